@@ -1,16 +1,27 @@
 package main
 
+// Property checks register themselves from init() in their own cXX.go file:
+//   func init() { props["Cxx"] = propDef{check: checkCxx, replay: replayCxx, rule: "..."} }
+// Child-process workers register in workers[kind].
+
 import (
 	"fmt"
 	"os"
 )
 
-func registerProps() {
-	props["C20"] = propDef{check: checkC20, replay: replayC20,
-		rule: "case = one TLC-emitted transition (witness insertion order + inserted word) replayed on trie.Trie, or one random insertion trace validated by Trie_Trace.tla; distinct by (witness, word); non-trivial when the trie was non-empty before the insert"}
-}
+var workers = map[string]func(args []string){}
+
+func registerProps() {}
 
 func workerMain(args []string) {
-	fmt.Fprintln(os.Stderr, "no worker kinds yet", args)
-	os.Exit(2)
+	if len(args) == 0 {
+		fmt.Fprintln(os.Stderr, "worker kind missing")
+		os.Exit(2)
+	}
+	w, ok := workers[args[0]]
+	if !ok {
+		fmt.Fprintln(os.Stderr, "unknown worker kind", args[0])
+		os.Exit(2)
+	}
+	w(args[1:])
 }
